@@ -7,7 +7,7 @@ spec/Gatt/GattTrace.tla   trace validation: Count / Idx / Probe events of a comp
 harness/gatt              generic harness, compiled once per generated server (tools/gen_server.py)
 """
 import json
-import os
+import threading
 
 import vlib
 from checks import _gatt
@@ -48,9 +48,16 @@ def dump_script(srv):
     return ["reset"] + (["mtu 0 %d" % m] if m > 23 else []) + ["dump %d" % upto(srv)]
 
 
+MAPPING_FIELDS = {"h", "ix", "fx", "fi", "n", "index_out_of_table"}
+
+
 def signature(why):
+    """<context>|<class>|<event:kind of the model attribute>|<failed fields>
+    context: inc = an include declaration at or before this table position, fixed = declaration with fixed handles, plain
+    class:   mapping = the attribute is not found under the handle the table prescribes; value = it is, but its value differs"""
     name, ctx, tags = why
-    return "%s|%s|%s" % (ctx, name, ",".join(tags))
+    cls = "mapping" if MAPPING_FIELDS & set(tags) else "value"
+    return "%s|%s|%s|%s" % (ctx, cls, name, ",".join(tags))
 
 
 def report(c, srv, script, mismatches):
@@ -65,8 +72,17 @@ def run(c):
                       "handles are probed up to (largest fixed handle + 4 * #characteristics + #services + 8) and at 0xFFFF"]
     if c.replay:
         return replay(c)
-    # 1. the reference construction itself, on all small declarations
-    vlib.model_check(c, _gatt.SPEC_DIR, "GattDecl.tla", "MC.cfg" if c.quick else "MCThorough.cfg", workers=4 if c.quick else None)
+    # 1. the reference construction itself, on all small declarations (in the background while the servers compile)
+    mc = {}
+    cfg = "MC.cfg" if c.quick else "MCThorough.cfg"
+
+    def model():
+        try:
+            mc["r"] = vlib.tlc(_gatt.SPEC_DIR, "GattDecl.tla", cfg, workers=4 if c.quick else 8, timeout=2400)
+        except Exception as e:          # noqa: BLE001
+            mc["e"] = e
+    th = threading.Thread(target=model)
+    th.start()
     # 2. declarations -> servers
     servers = _gatt.prepare(c, _gatt.load_decls(c, N_SAMPLED[c.tier]))
     _gatt.build_servers(c, servers)
@@ -81,6 +97,13 @@ def run(c):
         if not counts.get(k):
             raise vlib.ToolFailure("vacuous: no %s event recorded" % k)
     mism = _gatt.validate(c, traces)
+    th.join()
+    if "e" in mc:
+        raise mc["e"]
+    r = mc["r"]
+    c.add_model_run("GattDecl", cfg, r)
+    if r.violated or r.error or not r.completed or r.distinct < 1000:
+        raise vlib.ToolFailure("GattDecl %s failed: violated=%s error=%s distinct=%d\n%s" % (cfg, r.violated, r.error, r.distinct, r.out[-3000:]))
     by_trace = {}
     for m in mism:
         by_trace.setdefault(m[0], []).append(m)
